@@ -469,8 +469,8 @@ Section AssocLemmas.
   Lemma Forall_remove (Q : V -> Prop) a l :
     Forall (fun ar => Q (snd ar)) l -> Forall (fun ar => Q (snd ar)) (remove a l).
   Proof.
-    induction l as [|[k y] l IH]; simpl; intros H; [constructor|].
-    inversion H; subst. destruct (N.eqb a k); [assumption | constructor; auto].
+    unfold remove. induction l as [|[k y] l IH]; simpl; intros H; [constructor|].
+    inversion H; subst. destruct (N.eqb a k); simpl; [auto | constructor; auto].
   Qed.
   Lemma lookup_update_eq a x l : lookup a (update a x l) = Some x.
   Proof.
@@ -515,7 +515,7 @@ Lemma check_preconds_inv s k : all_inv s -> all_inv (fst (check_preconds s k)).
 Proof.
   intros H. unfold check_preconds.
   destruct (check_walk (st_febs s) k _) as [febs' rem'] eqn:E. simpl. unfold all_inv. simpl.
-  pose proof (check_walk_inv (st_febs s) k (match lookup k (st_pre s) with Some l => l | None => [] end) H) as H2.
+  pose proof (check_walk_inv (st_febs s) k (p_rem (match lookup k (st_pre s) with Some i => i | None => no_pinfo end)) H) as H2.
   rewrite E in H2. exact H2.
 Qed.
 
@@ -546,7 +546,7 @@ Proof.
     destruct (launch s1 (rel_batch (wr_rel wr))) as [s2 ev2]. simpl in H2.
     destruct (wr_rm wr); simpl; [apply feb_remove_inv|]; exact H2.
   - destruct (is_blocked s k || has_key k (st_pre s) || N.eqb k t); [exact H|].
-    set (s1 := mkSt (st_mem s) (st_febs s) (update k (rev pcs) (st_pre s))).
+    set (s1 := mkSt (st_mem s) (st_febs s) (update k (mkP (rev pcs) (rev pcs) [] 0) (st_pre s))).
     pose proof (check_preconds_inv s1 k H) as H2. destruct (check_preconds s1 k) as [s2 ok]. exact H2.
 Qed.
 
